@@ -211,7 +211,7 @@ PROPS["C05"] = dict(
 
 
 PROPS["C17"] = dict(
-    units=["fonts", "tdf_load", "tdf_save", "dcs_font", "xbin_load"],
+    units=["fonts", "tdf_load", "tdf_save", "dcs_font", "xbin_load", "bin_load", "idf_load"],
     kani_quick=["std_spec_le_bytes"],
     trusted_base=COMMON_TRUST + [
         "S7: char obeys the hash-table key model (vstd assumes the same for the integer key types); std HashMap through vstd's specification",
@@ -219,7 +219,7 @@ PROPS["C17"] = dict(
         "O1: `char::from_u32(i).and_then(|c| self.get_glyph(c))` is replaced by vx_glyph_at with the composed contract of char::from_u32 (S2) and HashMap::get",
         "BitFont::calculate_checksum is an assumed-frame function (changes only `checksum`)",
     ],
-    unverified_remainder=["DCS font loading (unit dcs_font): Parser::load_custom_font is proved to hand exactly the decoded payload to BitFont::from_bytes and to store the result in exactly the parsed slot whenever find / parse / base64 / from_bytes accept - base64 itself, the format! of BitFont::encode_as_ansi and the DCS dispatch that reaches load_custom_font are NOT decided; fonts embedded in XBin files: XBin::load_buffer is proved (clauses tagged C17 in unit xbin_load) to build font slot 0 / 1 from exactly the 256*h bytes at the font offset with dimensions 8 x h and to accept every header with h <= 32 (BitFont::create_8 is opaque there and proved in unit fonts); fonts embedded in ADF/IDF/IcyDraw files beyond the raw 8-bit block codec proved here, PSF1 512-glyph tables",
+    unverified_remainder=["DCS font loading (unit dcs_font): Parser::load_custom_font is proved to hand exactly the decoded payload to BitFont::from_bytes and to store the result in exactly the parsed slot whenever find / parse / base64 / from_bytes accept - base64 itself, the format! of BitFont::encode_as_ansi and the DCS dispatch that reaches load_custom_font are NOT decided; fonts embedded in XBin files: XBin::load_buffer is proved (clauses tagged C17 in unit xbin_load) to build font slot 0 / 1 from exactly the 256*h bytes at the font offset with dimensions 8 x h and to accept every header with h <= 32 (BitFont::create_8 is opaque there and proved in unit fonts); ADF: slot 0 is built from exactly bytes 193..4289 as an 8x16 font (unit bin_load); IDF: slot 0 is built from the 4096 bytes at the position where the record loop stops (idf_stop, == end of the screen block for a whole number of records; unit idf_load); fonts embedded in IcyDraw files are not decided, PSF1 512-glyph tables",
                           "TheDraw fonts (TDF): from_tdf_bytes is proved total and, for the first font of a bundle, to decode type, spacing, which of the 94 glyphs are defined and each glyph's size from the TDF offsets; each glyph's data bytes (zero-terminated, colour fonts in character/attribute pairs); the writer (unit tdf_save): add_font_data / as_tdf_bytes are proved to emit a record that matches the font under the same layout specification (prelude/tdf_specs.rs: type, spacing, offset table, each glyph's size and data) for fonts in the stated scope tdf_writable (94 table entries, spacing >= 0, glyph sizes <= 255, glyph data that the format can carry: no 0 character, complete character/attribute pairs in colour fonts); lemma_tdf_roundtrip composes writer and reader; bundles: from_tdf_bytes is proved for every font of a bundle (font i matches the record at tdf_start(bytes, i), the records before the terminator are exactly the fonts returned) and create_font_bundle to write records that match fonts[i] at tdf_start(out, i) and stay closed under the bytes appended later (lemma_record_grows, lemma_start_stable, lemma_bundle_count); NOT decided: font names (String bytes are opaque)",
                           "built-in font pages are include_bytes! data: their content is not read by the verifier"],
     explanation="glyphs_from_u8_data is proved to build exactly the table {code i -> rows [i*h, i*h+h)} for every complete glyph below 0xD800 (and to terminate, h = 0 included); "
